@@ -1,7 +1,7 @@
 """C20 Block / length / sample accounting (DESIGN §4.C20)."""
 from vstatic import terms as T
 from vstatic.terms import sym, Term, lift, pretty
-from .common import B, selfattr, kind_of, header_terms, RECORD_NO_INLINE
+from .common import B, selfattr, kind_of, header_terms, RECORD_NO_INLINE, record_block_requests
 
 
 def run(ctx):
@@ -108,27 +108,27 @@ def run(ctx):
     cdb = ctx.func(B + '.collect_data_block')
     rc, Ic = ctx.run(cdb, heap={'num_bits': lift(8), 'input_file_stem': T.NONE}, args={'requantize': T.TRUE},
                      no_inline=(B + '._read_next_block',), expand=False, max_depth=0)
-    names = {}
-    for e in Ic.events:
-        if e.kind == 'store' and e.data.get('target') == 'name' and e.data['name'] in ('T', 'W', 'subblock_T') and not e.loops:
-            names.setdefault(e.data['name'], e.data['value'])
     nsb = [e for e in Ic.events if e.kind == 'store' and e.data.get('target') == 'attr' and e.data.get('name') == 'num_subblocks']
-    ctx.require(nsb and {'T', 'W', 'subblock_T'} <= set(names), 'collect_data_block: T / W / subblock_T / num_subblocks not found')
+    ctx.require(nsb, 'collect_data_block no longer re-derives num_subblocks')
     J = ctx.interp(expand=False)
-    ctx.formula('FORMULA', 'spectra per block T == block_size / (channels*antennas*bytes_per_sample)', cdb, names['T'],
-                ctx.spec(cdb, 'int(self.block_size / (self.num_chans * self.num_antennas * self.bytes_per_sample))', I=J), node=cdb.node,
-                construct='T')
-    ctx.formula('FORMULA', 'spectra per sub-block == num_taps * ceil(T / num_taps / num_subblocks)', cdb, names['subblock_T'],
-                ctx.spec(cdb, 'self.num_taps * int(xp.ceil(TT / self.num_taps / self.num_subblocks))', env={'TT': names['T']}, I=J),
-                node=cdb.node, construct='subblock_T')
-    ctx.formula('FORMULA', 'number of sub-blocks == ceil(T / subblock_T): the trailing partial sub-block is kept, so the sub-blocks cover '
+    # spectra per block / per sub-block, written over the backend's attributes only (no local names of the code are used)
+    TT = ctx.spec(cdb, 'int(self.block_size / (self.num_chans * self.num_antennas * self.bytes_per_sample))', I=J)
+    ST = ctx.spec(cdb, 'self.num_taps * int(xp.ceil(TT / self.num_taps / self.num_subblocks))', env={'TT': TT}, I=J)
+    ctx.formula('FORMULA', 'number of sub-blocks == ceil(T / subblock_T) with T = block_size/(channels*antennas*bytes_per_sample) and '
+                'subblock_T = num_taps*ceil(T/num_taps/num_subblocks): the trailing partial sub-block is kept, so the sub-blocks cover '
                 'the whole block', cdb, nsb[0].data['value'],
-                ctx.spec(cdb, 'int(xp.ceil(TT / ST))', env={'TT': names['T'], 'ST': names['subblock_T']}, I=J), node=nsb[0].node)
-    lastW = [e for e in Ic.events if e.kind == 'store' and e.data.get('target') == 'name' and e.data['name'] == 'W' and e.loops]
-    ctx.require(lastW, 'collect_data_block: the shortened last sub-block was not found')
+                ctx.spec(cdb, 'int(xp.ceil(TT / ST))', env={'TT': TT, 'ST': ST}, I=J), node=nsb[0].node)
+    # the loop-carried window count: its only in-loop update is the shortened last sub-block
+    lastW = [e for e in Ic.events if e.kind == 'store' and e.data.get('target') == 'name' and e.loops and len(e.loops) == 1
+             and e.data.get('aug') is None and any(e.data['name'] in l.get('carried', ()) for l in e.loops)]
+    ctx.require(lastW, 'collect_data_block: the shortened last sub-block (loop-carried window count) was not found')
     ctx.formula('FORMULA', 'the last sub-block covers exactly the remainder T mod subblock_T', cdb, lastW[0].data['value'],
-                ctx.spec(cdb, 'int((TT % ST) / self.num_taps) + 1', env={'TT': names['T'], 'ST': names['subblock_T']}, I=J),
+                ctx.spec(cdb, 'int((TT % ST) / self.num_taps) + 1', env={'TT': TT, 'ST': ST}, I=J),
                 node=lastW[0].node)
+    want_g = ctx.spec(cdb, 'TT % ST != 0 and SB == self.num_subblocks - 1', env={'TT': TT, 'ST': ST, 'SB': lastW[0].loops[0]['index']},
+                      I=_with_heap(ctx, Ic, cdb))
+    ctx.formula('FORMULA', 'the window count is shortened only for a trailing partial sub-block', cdb, lastW[0].cond(), want_g,
+                node=lastW[0].node, construct=lastW[0].text()[:80] + ' [guard]')
     # number of blocks chosen per length mode
     ctx.clause = 'D2b'
     T.NOTNONE.update({'obs_length', 'num_blocks'})
@@ -139,6 +139,10 @@ def run(ctx):
         ctx.require(nb, 'record() no longer stores num_blocks')
         ctx.formula('FORMULA', f'length_mode={mode}: num_blocks == {spec}', rec, nb[-1].data['value'],
                     ctx.spec(rec, spec), node=nb[-1].node, construct=f'self.num_blocks [{mode}]')
+    # exactly num_blocks blocks are requested from the antenna (file split included)
+    ctx.clause = 'D2c'
+    r, Ir = ctx.run(rec, no_inline=RECORD_NO_INLINE)
+    record_block_requests(ctx, rec, Ir)
 
 
 def _with_heap(ctx, I, fi):
